@@ -365,6 +365,7 @@ fn clean_item(it: &mut syn::Item, derive_keep: &[String], subst: &BTreeMap<Strin
 
 struct Rules {
     split_find: bool,
+    fmt_concat: bool,
     split_map_collect: Option<String>,
     cloned_collect_fn: Option<String>,
     enumerate_fn: Option<String>,
@@ -575,6 +576,39 @@ impl<'a> VisitMut for RuleVisitor<'a> {
                             });
                             *e = new;
                             self.applied.bump("E4-then_with-inlined");
+                            return;
+                        }
+                    }
+                }
+            }
+        }
+        if self.rules.fmt_concat {
+            // E20: `format!("{a}{b}…")` whose text is nothing but inline placeholders ==> `vx_format<N>(&a, &b, …)`; the unit declares that
+            // function (concatenation of the Display texts) as a tagged assumption
+            if let Expr::Macro(m) = e {
+                if last_seg(&m.mac.path) == "format" {
+                    if let Ok(lit) = syn::parse2::<syn::LitStr>(m.mac.tokens.clone()) {
+                        let text = lit.value();
+                        let mut names: Vec<syn::Ident> = Vec::new();
+                        let mut rest = text.as_str();
+                        let mut ok = !rest.is_empty();
+                        while ok && !rest.is_empty() {
+                            match (rest.strip_prefix('{'), rest.find('}')) {
+                                (Some(_), Some(end)) => {
+                                    let name = &rest[1..end];
+                                    match syn::parse_str::<syn::Ident>(name) {
+                                        Ok(id) => names.push(id),
+                                        Err(_) => ok = false,
+                                    }
+                                    rest = &rest[end + 1..];
+                                }
+                                _ => ok = false,
+                            }
+                        }
+                        if ok && !names.is_empty() {
+                            let f = format_ident!("vx_format{}", names.len());
+                            *e = parse_quote!(#f(#(&#names),*));
+                            self.applied.bump("E20-format-of-placeholders-as-concat");
                             return;
                         }
                     }
@@ -1072,6 +1106,7 @@ fn transform_fn(
         .unwrap_or_default();
     let rules = Rules {
         split_find: rule_list.iter().any(|r| r == "E19"),
+        fmt_concat: rule_list.iter().any(|r| r == "E20"),
         split_map_collect: rule_list.iter().find_map(|r| if r == "E18" { Some(String::new()) } else { r.strip_prefix("E18=").map(String::from) }),
         cloned_collect_fn: rule_list.iter().find_map(|r| r.strip_prefix("E17=").map(String::from)),
         enumerate_fn: rule_list.iter().find_map(|r| r.strip_prefix("E16=").map(String::from)),
